@@ -179,7 +179,7 @@ Proof. vm_compute. reflexivity. Qed.
    a check that the code generator's output is what the simulation's code functions say; the C07 check evaluates the
    extracted `in_fragment` (= in_fragment1 || in_fragment2) on every program it generates.
    PARTIAL: outside the fragment (calls in the step expression of a from loop; a step that reads a captured variable the body
-   shadows; an upper bound with calls that mentions the name of the loop's own counter; the value of a
+   shadows; the value of a
    function that returns no value on one path used as an operand) the statement is established by the T1/T2/T3
    correspondences only. *)
 From MS Require Import Compile.ClosFrag Compile.ClosRel Compile.ClosSim Compile.ClosTop Compile.StmtSim Compile.StmtFragB Compile.StmtExamples Compile.ClosExamples.
